@@ -51,8 +51,28 @@ secure=False)``
 What the stub transport does on ``close(sock)``: it marks the connection closed
 and fires ``disconnect(sock)``, as ``circuits.net.sockets.Server`` does once its
 buffer has drained (the buffer itself is C11/C12's subject, not modelled here).
+
+``HttpHarness(..., transport='server')``  (default ``'stub'``)
+    The write path is the repository's own: a real ``circuits.net.sockets.TCPServer``
+    (on a listener double, with the poller double of ``harness/doubles.py``) stands
+    between the HTTP component and the socket double.  ``write(sock, data)`` events
+    are queued by ``Server.write``; once the pipeline is quiescent ``settle()``
+    delivers write-readiness (``_write(sock)``) until the connection no longer asks
+    for it, so every queued chunk goes through ``Server._on_write`` / ``Server._write``
+    and the double's ``send()``.  ``send()`` accepts what the connection's accept
+    script allows:
+        ``conn.accept = None``            everything (default)
+        ``conn.accept = [k1, k2, ...]``   the j-th send() call accepts at most
+                                          k_(j mod len) bytes (partial accepts:
+                                          the rest must be re-queued by the server)
+    ``conn.output`` is then what the peer *received* (bytes accepted by send(), in
+    the order they were accepted), ``conn.closed`` means the server closed the
+    descriptor (``Server._close``: after the buffer has drained), ``conn.sends`` is
+    the list of (offered, accepted) per send() call.  ``conn.late`` stays empty
+    (the server drops writes for a connection it has closed).
 """
 
+import errno as _errno
 import socket as _socket
 from collections import namedtuple
 
@@ -85,6 +105,63 @@ class SockDouble(_socket.socket):
         raise AssertionError('socket double must not be read from directly')
 
 
+class ServedSock(SockDouble):
+    """The connection as circuits.net.sockets.Server sees it (transport='server'):
+    send() accepts what the connection's accept script allows and records it as
+    received by the peer; close() is the server closing the descriptor."""
+
+    def __init__(self, peer):
+        super().__init__(peer)
+        self.conn = None
+
+    def send(self, data, *flags):
+        c = self.conn
+        if c.closed:
+            raise OSError(_errno.EPIPE, 'send on a connection the server closed')
+        n = len(data)
+        if c.accept:
+            n = min(n, max(0, int(c.accept[c._nsend % len(c.accept)])))
+        c._nsend += 1
+        c.sends.append((len(data), n))
+        if n:
+            c.writes.append(bytes(data[:n]))
+            c._out += data[:n]
+        return n
+
+    def recv(self, n, *flags):
+        raise BlockingIOError(_errno.EWOULDBLOCK, 'no data')
+
+    def setblocking(self, flag):
+        return None
+
+    def shutdown(self, how):
+        return None
+
+    def close(self):
+        c = self.conn
+        if c is not None and not c.harness._tearing_down and not c.closed:
+            c.closed = True
+            c.close_events += 1
+        _socket.socket.close(self)
+
+
+class ListenerDouble(_socket.socket):
+    """Listening socket double: accept() hands out prepared connections."""
+
+    def __init__(self):
+        super().__init__(_socket.AF_INET, _socket.SOCK_STREAM)
+        self.pending = []
+
+    def accept(self):
+        if not self.pending:
+            raise BlockingIOError(_errno.EWOULDBLOCK, 'nothing to accept')
+        c = self.pending.pop(0)
+        return c, c.getpeername()
+
+    def getsockname(self):
+        return ('127.0.0.1', 8000)
+
+
 class Conn:
     def __init__(self, harness, sock):
         self.harness = harness
@@ -96,6 +173,9 @@ class Conn:
         self.close_events = 0
         self.peer_gone = False
         self.requests_seen = []
+        self.accept = None      # transport='server': accept script for send() (None: everything)
+        self.sends = []         # transport='server': (offered, accepted) per send() call
+        self._nsend = 0
 
     # -- what the server sent ----------------------------------------------
     @property
@@ -127,16 +207,54 @@ class Conn:
     def disconnect(self, settle=True):
         from circuits.net.events import disconnect
         self.peer_gone = True
-        self.harness.root.fire(disconnect(self.sock), self.harness.channel)
+        if self.harness.transport == 'server':
+            from circuits.core.pollers import _disconnect
+            self.harness.root.fire(_disconnect(self.sock), self.harness.channel)
+        else:
+            self.harness.root.fire(disconnect(self.sock), self.harness.channel)
         if settle:
             self.harness.settle()
         return self
 
 
-def _make_server_stub(harness, encoding, display_banner, secure, channel):
+def _make_server_stub(harness, encoding, display_banner, secure, channel, transport='stub'):
     from circuits import BaseComponent, handler
     from circuits.net.events import disconnect
     from circuits.web.http import HTTP
+
+    class ServerBase(BaseComponent):
+        """Stands where circuits.web.servers.BaseServer stands: owns the HTTP
+        component (and, with transport='server', a real TCPServer)."""
+
+        host = '127.0.0.1'
+        port = 8000
+
+        def __init__(self):
+            super().__init__(channel=channel)
+            self.secure = secure
+            self.display_banner = display_banner
+            if transport == 'server':
+                from circuits.net.sockets import TCPServer
+                harness.listener = ListenerDouble()
+                self.server = TCPServer(harness.listener, channel=channel).register(self)
+            self.http = HTTP(self, encoding=encoding, channel=channel).register(self)
+
+        # the pipeline's own view of each request, before the dispatcher (0.1)
+        @handler('request', priority=100.0)
+        def _on_request_probe(self, event, req, res, *args, **kwargs):
+            c = harness._by_sock.get(id(req.sock))
+            seen = RequestSeen(req.method, req.path, tuple(req.protocol), dict(req.headers.items()),
+                               req.body.getvalue() if hasattr(req.body, 'getvalue') else None)
+            harness.requests_seen.append(seen)
+            if c is not None:
+                c.requests_seen.append(seen)
+
+        @handler('exception', channel='*', priority=100.0)
+        def _on_exception_probe(self, etype, evalue, tb, handler=None, fevent=None):
+            harness.errors.append((etype, evalue, handler, getattr(fevent, 'name', None)))
+
+    if transport == 'server':
+        return ServerBase()
 
     class ServerStub(BaseComponent):
         """Stands where circuits.web.servers.BaseServer stands: owns the HTTP
@@ -194,8 +312,15 @@ def _make_server_stub(harness, encoding, display_banner, secure, channel):
 class HttpHarness:
     channel = 'web'
 
-    def __init__(self, *components, dispatcher=True, encoding='utf-8', display_banner=False, secure=False):
+    def __init__(self, *components, dispatcher=True, encoding='utf-8', display_banner=False, secure=False,
+                 transport='stub'):
         from circuits import Manager
+        if transport not in ('stub', 'server'):
+            raise ValueError(transport)
+        self.transport = transport
+        self._tearing_down = False
+        self.listener = None
+        self.poller = None
         self.root = Manager()
         self.conns = []
         self._by_sock = {}
@@ -203,7 +328,10 @@ class HttpHarness:
         self.errors = []
         self.requests_seen = []
         self._nconn = 0
-        self.server = _make_server_stub(self, encoding, display_banner, secure, self.channel).register(self.root)
+        if transport == 'server':
+            from .doubles import make_poller_double
+            self.poller = make_poller_double().register(self.root)
+        self.server = _make_server_stub(self, encoding, display_banner, secure, self.channel, transport).register(self.root)
         self.http = self.server.http
         if dispatcher:
             from circuits.web.dispatchers import Dispatcher
@@ -213,13 +341,30 @@ class HttpHarness:
         self.components = [c.register(self.server) for c in components]
         self.settle()
 
-    def settle(self, max_ticks=2000):
+    def _quiesce(self, max_ticks):
         root = self.root
         for _ in range(max_ticks):
             if not len(root) and not root._tasks:
                 return
             root.tick()
         raise NotQuiescent('web pipeline does not settle in %d ticks' % max_ticks)
+
+    def settle(self, max_ticks=2000, max_sends=100000):
+        """Tick until nothing is queued and no task is pending.  With
+        transport='server': then deliver write-readiness to every connection
+        that asks for it (one `_write` event each), and repeat until none does."""
+        self._quiesce(max_ticks)
+        if self.transport != 'server':
+            return
+        from circuits.core.pollers import _write
+        for _ in range(max_sends):
+            ready = [c for c in self.conns if not c.closed and self.poller.isWriting(c.sock)]
+            if not ready:
+                return
+            for c in ready:
+                self.root.fire(_write(c.sock), self.channel)
+            self._quiesce(max_ticks)
+        raise NotQuiescent('connections still ask for write-readiness after %d rounds' % max_sends)
 
     def fire(self, event, *channels):
         return self.root.fire(event, *(channels or (self.channel,)))
@@ -229,6 +374,18 @@ class HttpHarness:
         self._nconn += 1
         if peer is None:
             peer = ('127.0.0.1', 50000 + self._nconn)
+        if self.transport == 'server':
+            from circuits.core.pollers import _read
+            sock = ServedSock(peer)
+            c = Conn(self, sock)
+            sock.conn = c
+            self.conns.append(c)
+            self._by_sock[id(sock)] = c
+            self.listener.pending.append(sock)
+            self.root.fire(_read(self.listener), self.channel)     # Server._accept -> connect(sock, host, port)
+            if settle:
+                self.settle()
+            return c
         c = Conn(self, SockDouble(peer))
         self.conns.append(c)
         self._by_sock[id(c.sock)] = c
@@ -241,9 +398,15 @@ class HttpHarness:
         return {'clients': len(self.http._clients), 'buffers': len(self.http._buffers)}
 
     def close(self):
+        self._tearing_down = True
         for c in self.conns:
             try:
                 _socket.socket.close(c.sock)
+            except OSError:
+                pass
+        if self.listener is not None:
+            try:
+                self.listener.close()
             except OSError:
                 pass
 
